@@ -112,10 +112,11 @@ def _leaf_text(leaf, pad, flow):
 
 
 def _flow(node):
+    pre = ("&%s " % node["anchor"]) if node["t"] in ("map", "seq") and node.get("anchor") else ""
     if node["t"] == "map":
-        return "{" + ", ".join("%s: %s" % (k, _flow(v)) for k, v in node["items"]) + "}"
+        return pre + "{" + ", ".join("%s: %s" % (k, _flow(v)) for k, v in node["items"]) + "}"
     if node["t"] == "seq":
-        return "[" + ", ".join(_flow(v) for v in node["items"]) + "]"
+        return pre + "[" + ", ".join(_flow(v) for v in node["items"]) + "]"
     return _leaf_text(node, "", True)
 
 
@@ -128,7 +129,7 @@ def _block(node, ind, lines):
             if v.get("flow") or not v["items"]:
                 lines.append(lead + " " + _flow(v))
             else:
-                lines.append(lead)
+                lines.append(lead + ((" &%s" % v["anchor"]) if v.get("anchor") else ""))
                 _block(v, ind + 1, lines)
         else:
             lines.append(lead + " " + _leaf_text(v, pad + "    ", False))
@@ -196,34 +197,51 @@ class Tables:
         return "none", self.pt(("p",) + absdoc.scalar_tv(v)), None
 
 
-def walk(data):
-    """Scalar positions in document order: list of (container object, container id, ct, ref, value)."""
+def walk_ext(data):
+    """Scalar positions in the order the path generator visits them: list of
+    (container object, container id, ct, ref, value, visit number, loc, container anchor).
+
+    A container that is referenced more than once (`copy: *box`) is visited once per reference; loc is the number of
+    the first position that designates the same physical place (container, ref)."""
     out = []
     conts = {}
+    visits = [0]
+    first = {}
 
-    def rec(x):
+    def rec(x, depth):
+        if depth > 20:
+            raise ValueError("self-referencing container")
         cid = conts.setdefault(id(x), len(conts) + 1)
+        visits[0] += 1
+        vis = visits[0]
+        canc = absdoc.anchor_of(x)
         if isinstance(x, CommentedMap):
             items = [("map", k, v) for k, v in x.items()]
         else:
             items = [("seq", i, v) for i, v in enumerate(x)]
         for ct, ref, v in items:
             if isinstance(v, (CommentedMap, CommentedSeq)):
-                rec(v)
+                rec(v, depth + 1)
             else:
-                out.append((x, cid, ct, ref, v))
+                loc = first.setdefault((cid, ct, ref if ct == "seq" else repr(ref)), len(out) + 1)
+                out.append((x, cid, ct, ref, v, vis, loc, canc))
 
     if isinstance(data, (CommentedMap, CommentedSeq)):
-        rec(data)
+        rec(data, 0)
     return out
 
 
+def walk(data):
+    """As walk_ext, the first five fields only."""
+    return [t[:5] for t in walk_ext(data)]
+
+
 def _classes(positions):
-    """Identity class per position = least position holding the same (anchored) object."""
+    """Identity class per position = least position holding the same anchored object / the same physical place."""
     first = {}
     cls = []
-    for p, (_, _, _, _, v) in enumerate(positions, 1):
-        k = ("a", id(v)) if absdoc.anchor_of(v) else ("u", p)
+    for p, (cont, _, ct, ref, v) in enumerate(positions, 1):
+        k = ("a", id(v)) if absdoc.anchor_of(v) else ("u", id(cont), ct, ref if ct == "seq" else repr(ref))
         cls.append(first.setdefault(k, p))
     return cls
 
@@ -240,13 +258,14 @@ def view(data, tables):
 
 def abstract_rot(data, tables):
     """Loaded data -> ({"slots", "objs"}, per-slot info list)."""
-    pos = walk(data)
+    ext = walk_ext(data)
+    pos = [t[:5] for t in ext]
     cls = _classes(pos)
     objs = []
     obj_of_class = {}
     slots = []
     info = []
-    for p, (c, (_, cid, ct, ref, v)) in enumerate(zip(cls, pos), 1):
+    for p, (c, (_, cid, ct, ref, v, vis, loc, canc)) in enumerate(zip(cls, ext), 1):
         if c not in obj_of_class:
             k, pt, plain = tables.decode(v)
             head = (v if isinstance(v, str) else absdoc.scalar_tv(v)[1])[:16]
@@ -255,19 +274,38 @@ def abstract_rot(data, tables):
                          "trail": trail_class(plain) if plain is not None else ""})
             obj_of_class[c] = len(objs)
         o = obj_of_class[c]
-        slots.append({"cont": cid, "ct": ct, "o": o})
+        slots.append({"cont": cid, "ct": ct, "o": o, "vis": vis, "loc": loc, "canc": canc})
         k, pt, plain = tables.decode(v)
         info.append({"pos": p, "cont": cid, "ct": ct, "ref": str(ref), "secret": is_marker(v), "key": k, "pt": pt,
-                     "plain": plain, "cls": c, "anchor": absdoc.anchor_of(v)})
+                     "plain": plain, "cls": c, "anchor": absdoc.anchor_of(v), "loc": loc, "canc": canc})
     return {"slots": slots, "objs": objs}, info
 
 
-def frame_table(data):
-    """absdoc node table with the text of marker-recognised values masked (the non-secret frame + anchors)."""
+def frame_table(data, drop_unreferenced=False):
+    """absdoc node table with the text of marker-recognised values masked (the non-secret frame + anchors).
+
+    drop_unreferenced: erase the anchor of every Hash/Array that nothing refers to (used to NAME one deviation)."""
     doc = absdoc.abstract(data)
+    refs = {}            # anchor name of a Hash/Array -> number of places that hold that very object
+    seen = set()
+
+    def rec(x):
+        for v in (x.values() if isinstance(x, CommentedMap) else x):
+            if isinstance(v, (CommentedMap, CommentedSeq)):
+                a = absdoc.anchor_of(v)
+                if a:
+                    refs[a] = refs.get(a, 0) + 1
+                if id(v) not in seen:
+                    seen.add(id(v))
+                    rec(v)
+
+    if isinstance(data, (CommentedMap, CommentedSeq)):
+        rec(data)
     for n in doc:
         if n["k"] == "s" and n["t"] == "str" and is_marker(n["v"]):
             n["v"] = "<secret>"
+        if drop_unreferenced and n["k"] != "s" and n["anchor"] and refs.get(n["anchor"], 0) <= 1:
+            n["anchor"] = ""
     return doc
 
 
@@ -287,7 +325,7 @@ class Recorder:
     def index(self, data):
         self.slotmap = {}
         for p, (cont, _, ct, ref, _) in enumerate(walk(data), 1):
-            self.slotmap[(id(cont), ct, ref if ct == "seq" else repr(ref))] = p
+            self.slotmap.setdefault((id(cont), ct, ref if ct == "seq" else repr(ref)), p)     # = loc
 
     def locate(self, nc):
         par = nc.parent
@@ -478,7 +516,8 @@ def run_case(texts, backup, work, keys, eyaml_arg=None):
                 f["bak_ok"] = fh.read() == f["text"].encode("utf-8")
         f["touched"] = f["rewritten"] or f["bak_ok"] is not None
         f.update({"after_text": after_bytes.decode("utf-8", "replace") if f["rewritten"] else "", "view": [],
-                  "reload_error": "", "frame_ok": None, "after_info": []})
+                  "reload_error": "", "frame_ok": None, "frame_ok_but_unreferenced_container_anchors": None,
+                  "after_info": []})
         if f["rewritten"]:
             noise = io.StringIO()
             try:
@@ -487,6 +526,8 @@ def run_case(texts, backup, work, keys, eyaml_arg=None):
                 f["view"] = view(data1, tables)
                 _, f["after_info"] = abstract_rot(data1, tables)
                 f["frame_ok"] = absdoc.same_table(frame_table(f["data0"]), frame_table(data1), anchors=True)
+                f["frame_ok_but_unreferenced_container_anchors"] = f["frame_ok"] or absdoc.same_table(
+                    frame_table(f["data0"], True), frame_table(data1, True), anchors=True)
             except Exception as ex:
                 msg = " ".join(noise.getvalue().split())
                 f["reload_error"] = "%s: %s" % (type(ex).__name__, msg[:160] or str(ex)[:160])
@@ -513,13 +554,16 @@ def standin_decrypt(value, keypair):
 def slot_class(info, i):
     """Input class of position i (0-based) for signatures: single|anchor|alias - in - map|seq [- same|foreign]."""
     me = info[i]
-    group = [x for x in info if x["cls"] == me["cls"]]
+    ct = ("anchored-" if me.get("canc") else "") + me["ct"]
+    if me.get("loc", me["pos"]) != me["pos"]:
+        return "revisited-in-aliased-%s" % me["ct"]
+    group = [x for x in info if x["cls"] == me["cls"] and x.get("loc", x["pos"]) == x["pos"]]
     if len(group) == 1:
-        return "%s-in-%s" % ("anchored-single" if me["anchor"] else "single", me["ct"])
+        return "%s-in-%s" % ("anchored-single" if me["anchor"] else "single", ct)
     first = group[0]
     if me is first:
-        return "anchor-in-%s" % me["ct"]
-    return "alias-in-%s-%s" % ("same" if me["cont"] == first["cont"] else "foreign", me["ct"])
+        return "anchor-in-%s" % ct
+    return "alias-in-%s-%s" % ("same" if me["cont"] == first["cont"] else "foreign", ct)
 
 
 def _segments(events):
@@ -634,5 +678,9 @@ def judge(obs, use_executable=False):
         if nenc != sum(ndec.values()):
             bad.append(("rotate:not-once:encryptions" + tag, fname + "%d decryptions but %d encryptions" % (sum(ndec.values()), nenc)))
         if f["frame_ok"] is False:
-            bad.append(("rotate:frame:changed" + tag, fname + "a non-encrypted key, value, ordering or anchor differs after the run"))
+            if f["frame_ok_but_unreferenced_container_anchors"]:
+                bad.append(("rotate:frame:unreferenced-container-anchor-dropped",
+                            fname + "the anchor of a Hash/Array that no alias refers to is gone from the rewritten file"))
+            else:
+                bad.append(("rotate:frame:changed" + tag, fname + "a non-encrypted key, value, ordering or anchor differs after the run"))
     return bad, notes
